@@ -41,6 +41,8 @@ type LeakyBucketPacer struct {
 	writerLock   sync.RWMutex
 
 	pool *sync.Pool
+
+	wg sync.WaitGroup
 }
 
 // NewLeakyBucketPacer initializes a new LeakyBucketPacer.
@@ -68,7 +70,11 @@ func newLeakyBucketPacer(initialBitrate int, loggerFactory logging.LoggerFactory
 		},
 	}
 
-	go pacer.Run()
+	pacer.wg.Add(1)
+	go func() {
+		defer pacer.wg.Done()
+		pacer.Run()
+	}()
 
 	return pacer
 }
@@ -170,6 +176,7 @@ func (p *LeakyBucketPacer) Run() {
 // Close closes the LeakyBucketPacer.
 func (p *LeakyBucketPacer) Close() error {
 	close(p.done)
+	p.wg.Wait()
 
 	return nil
 }
